@@ -115,7 +115,7 @@ func C05(c *Case) *Result {
 	if c.Thorough() {
 		maxJobs = 64
 	}
-	cfg, data, stream, parsed, ok := validStream(c, res, GenOpts{Cheap: t.Intn(8) != 0, MaxJobs: maxJobs, MaxBlock: 8192, ExactHint: true, Headerless: true, MaxChain: 4, Geometry: true},
+	cfg, data, stream, parsed, ok := validStream(c, res, GenOpts{SkipOpt: true, Cheap: t.Intn(8) != 0, MaxJobs: maxJobs, MaxBlock: 8192, ExactHint: true, Headerless: true, MaxChain: 4, Geometry: true},
 		func(cfg Config) int { return min(3*cfg.DecJobs+2, 70) })
 	if !ok {
 		return res
@@ -288,7 +288,7 @@ func damagePayload(t *sim.Tape, stream []byte, parsed *model.Stream, res *Result
 func C02(c *Case) *Result {
 	res := newResult(c)
 	t := c.Tape
-	cfg, data, stream, parsed, ok := validStream(c, res, GenOpts{Cheap: t.Intn(3) != 0, MaxJobs: 8, MaxBlock: 16384, ExactHint: true, Headerless: true, Checksummed: true},
+	cfg, data, stream, parsed, ok := validStream(c, res, GenOpts{SkipOpt: true, Cheap: t.Intn(3) != 0, MaxJobs: 8, MaxBlock: 16384, ExactHint: true, Headerless: true, Checksummed: true},
 		func(cfg Config) int { return min(2*cfg.DecJobs+2, 12) })
 	if !ok {
 		return res
@@ -410,7 +410,7 @@ func C09(c *Case) *Result {
 	res := newResult(c)
 	t := c.Tape
 	exhaustive := t.Intn(4) == 0
-	o := GenOpts{Cheap: t.Intn(4) != 0, MaxJobs: 8, MaxBlock: 16384, ExactHint: true, Headerless: true}
+	o := GenOpts{SkipOpt: true, Cheap: t.Intn(4) != 0, MaxJobs: 8, MaxBlock: 16384, ExactHint: true, Headerless: true}
 	if exhaustive {
 		o.MaxBlock = 1024
 	}
@@ -498,7 +498,7 @@ func C09(c *Case) *Result {
 func C11(c *Case) *Result {
 	res := newResult(c)
 	t := c.Tape
-	cfg, data, stream, parsed, ok := validStream(c, res, GenOpts{Cheap: t.Intn(8) != 0, MaxJobs: 8, MaxBlock: 4096, ExactHint: true, Headerless: true, MaxChain: 3},
+	cfg, data, stream, parsed, ok := validStream(c, res, GenOpts{SkipOpt: true, Cheap: t.Intn(8) != 0, MaxJobs: 8, MaxBlock: 4096, ExactHint: true, Headerless: true, MaxChain: 3},
 		func(cfg Config) int { return 12 })
 	if !ok {
 		return res
@@ -586,7 +586,7 @@ func C11(c *Case) *Result {
 func C06(c *Case) *Result {
 	res := newResult(c)
 	t := c.Tape
-	cfg, data, stream, _, ok := validStream(c, res, GenOpts{Cheap: t.Intn(4) != 0, MaxJobs: 4, MaxBlock: 16384, ExactHint: true, Headerless: true},
+	cfg, data, stream, _, ok := validStream(c, res, GenOpts{SkipOpt: true, Cheap: t.Intn(4) != 0, MaxJobs: 4, MaxBlock: 16384, ExactHint: true, Headerless: true},
 		func(cfg Config) int { return min(2*cfg.DecJobs+2, 8) })
 	if !ok {
 		return res
